@@ -188,6 +188,47 @@ func (p *flowProto) genTpl(r *rand.Rand, id int, opts, wfOnly bool) tpl {
 	return t
 }
 
+// redefine: a new definition under the same id that differs from the old one only subtly —
+// same elements with other lengths, the same option fields with another scope part, the same fields
+// in another order, or one field dropped / duplicated
+func (p *flowProto) redefine(r *rand.Rand, t tpl) tpl {
+	n := tpl{id: t.id, opts: t.opts, scope: append([]fspec{}, t.scope...), fields: append([]fspec{}, t.fields...)}
+	relen := func(l []fspec) {
+		for i := range l {
+			if r.Intn(2) == 0 {
+				ty, _ := elemType(l[i])
+				if l[i].ln == natural[ty] {
+					l[i].ln = 1 + r.Intn(16)
+				} else {
+					l[i].ln = natural[ty]
+				}
+			}
+		}
+	}
+	switch k := r.Intn(5); {
+	case k == 0:
+		relen(n.fields)
+	case k == 1 && t.opts:
+		// other scope part, identical option fields
+		n.scope = nil
+		for i, m := 0, 1+r.Intn(2); i < m; i++ {
+			n.scope = append(n.scope, p.genSpec(r, true))
+		}
+	case k == 1:
+		relen(n.fields)
+	case k == 2 && len(n.fields) > 1:
+		r.Shuffle(len(n.fields), func(i, j int) { n.fields[i], n.fields[j] = n.fields[j], n.fields[i] })
+	case k == 3 && len(n.fields) > 1:
+		n.fields = n.fields[:len(n.fields)-1]
+	default:
+		if len(n.fields) > 0 {
+			n.fields = append(n.fields, n.fields[r.Intn(len(n.fields))])
+		}
+		relen(n.scope)
+	}
+	return n
+}
+
 func (p *flowProto) encTplRec(t tpl) []byte {
 	var b []byte
 	switch {
@@ -452,6 +493,12 @@ func (g *genSession) genDatagram(r *rand.Rand, cfg genCfg, first bool) dgram {
 			var body []byte
 			for j := 0; j < 1+r.Intn(2); j++ {
 				t := p.genTpl(r, 256+r.Intn(8), false, cfg.wfOnly)
+				if ids := g.order[ak]; len(ids) > 0 && r.Intn(3) == 0 {
+					// subtle redefinition of an id this exporter already announced (plain templates only here)
+					if k := g.known[refKey{ak, ids[r.Intn(len(ids))]}]; !k.opts && len(k.fields) > 0 {
+						t = p.redefine(r, k)
+					}
+				}
 				body = append(body, p.encTplRec(t)...)
 				if len(t.fields) == 0 {
 					// a 4-octet template record is not parsed (the `> 4` rule): not well-formed for the oracle
@@ -464,6 +511,11 @@ func (g *genSession) genDatagram(r *rand.Rand, cfg genCfg, first bool) dgram {
 			msg = append(msg, p.set(r, cfg, p.tplSet, body, &wf)...)
 		case kk < 8: // options template set
 			t := p.genTpl(r, 256+r.Intn(8), true, cfg.wfOnly)
+			if ids := g.order[ak]; len(ids) > 0 && r.Intn(3) == 0 {
+				if k := g.known[refKey{ak, ids[r.Intn(len(ids))]}]; k.opts && len(k.fields)+len(k.scope) > 0 {
+					t = p.redefine(r, k)
+				}
+			}
 			if len(t.fields)+len(t.scope) == 0 {
 				wf = false
 			}
